@@ -1186,15 +1186,15 @@ example (m2 : Ks.R 1) (σ : ℕ → Ks.R 1) : ∃ res, cmuxAssignNeg true 1 4 ([
     (by intro i _ r _; exact (add_sub_cancel _ _).symm)
   exact ⟨res, h1, h2⟩
 
-/-- **`cswap_decrypts`** — `Cswap::cswap`, BOTH outputs, END TO END on the i64 accumulator (FFT64), every `dsize ≥ 1`, every rank
+/-- **`cswap_decrypts`** — `Cswap::cswap`, BOTH outputs, END TO END, both accumulator widths, every `dsize ≥ 1`, every rank
 (`Core.CswapSpec`, `d = res_b − res_a`): `2^(bg·S)·phase(res_a') = 2^(rb·sa)·(epValue(d) + phase(res_a)) + En + 2^(…)Q` and
 `2^(bg·S)·phase(res_b') = 2^(rb·sb)·(phase(res_b) − epValue(d)) + En' + 2^(…)Q'`, `‖En‖_∞, ‖En'‖_∞ ≤ (1 + Σ‖s_i‖₁)·normTol`; with
 `epValue(d) = m2·Σσ_i·usedVal(d_i) + gadget error` this is `cswap_swaps` on the executed model (`vec_znx_big_add_small_into` /
-`vec_znx_big_sub_small_a` exact under head-room: `Core.bigAddSmallInto_exact`, `Core.bigSubSmallA_exact`). -/
-theorem cswap_decrypts {N : Nat} (rb : Nat) (ra rbb : List Col) (g : EpGGSW) (res0 tmp0 : List Col) (sk : List Poly) (X Y : Int)
+`vec_znx_big_sub_small_a` exact under head-room: `Core.bigAddSmallInto_exact_w`, `Core.bigSubSmallA_exact_w`, i64 and i128). -/
+theorem cswap_decrypts {N : Nat} (big128 : Bool) (rb : Nat) (ra rbb : List Col) (g : EpGGSW) (res0 tmp0 : List Col) (sk : List Poly) (X Y : Int)
     (hg : (g.n == N && g.wf && shapeOk N (g.rank + 1) (ra.getD 0 []).length ra && shapeOk N (g.rank + 1) (rbb.getD 0 []).length rbb) = true)
     (hrb : rb = g.base2k) (hgb1 : 1 ≤ g.base2k) (hgb : g.base2k ≤ 62)
-    (hX0 : 0 ≤ X) (hY0 : 0 ≤ Y) (hH : X + Y + 8 ≤ 2 ^ 62)
+    (hX0 : 0 ≤ X) (hY0 : 0 ≤ Y) (hH : X + Y + 8 ≤ 2 ^ (bitsOf big128 - 2))
     (hPb : ∀ c ∈ epInternal (glweSubSameRank N (max (ra.getD 0 []).length (rbb.getD 0 []).length) rbb ra) g res0 tmp0, ∀ l ∈ c, ∀ x ∈ l, |x| ≤ X)
     (hrab : ∀ c ∈ ra, ∀ l ∈ c, ∀ x ∈ l, |x| ≤ Y) (hrbb : ∀ c ∈ rbb, ∀ l ∈ c, ∀ x ∈ l, |x| ≤ Y)
     (m2 : Ks.R N) (σ : ℕ → Ks.R N) (E : ℕ → ℕ → Ks.R N)
@@ -1206,13 +1206,13 @@ theorem cswap_decrypts {N : Nat} (rb : Nat) (ra rbb : List Col) (g : EpGGSW) (re
     (hkey : ∀ i, i < g.rank + 1 → ∀ r, r < g.dnum →
       Gadget.val ((2 : Ks.R N) ^ g.base2k) g.size (Ks.keyPhase N sk g.toPMat i r)
         = m2 * σ i * ((2 : Ks.R N) ^ g.base2k) ^ (g.size - (r + 1) * g.dsize) + E i r) :
-    ∃ xa xb, cswap false N rb ra rbb g res0 tmp0 = .ok (xa, xb) ∧
+    ∃ xa xb, cswap big128 N rb ra rbb g res0 tmp0 = .ok (xa, xb) ∧
       CswapSpec N rb g sk m2 σ E ra rbb (glweSubSameRank N (max (ra.getD 0 []).length (rbb.getD 0 []).length) rbb ra) xa xb :=
-  cswap_total rb ra rbb g res0 tmp0 sk X Y hg hrb hgb1 hgb hX0 hY0 hH hPb hrab hrbb m2 σ E hd hN hn haD h0 ht hM hS hkey
+  cswap_total big128 rb ra rbb g res0 tmp0 sk X Y hg hrb hgb1 hgb hX0 hY0 hH hPb hrab hrbb m2 σ E hd hN hn haD h0 ht hM hS hkey
 
-example (m2 : Ks.R 1) (σ : ℕ → Ks.R 1) : ∃ xa xb, cswap false 1 4 ([[[1], [2], [3]], [[0], [1], [0]]] : List Col) ([[[0], [0], [1]], [[0], [0], [0]]] : List Col) staleG (zeroCols 1 2 4) (zeroCols 1 2 4) = .ok (xa, xb) ∧
+example (m2 : Ks.R 1) (σ : ℕ → Ks.R 1) : ∃ xa xb, cswap true 1 4 ([[[1], [2], [3]], [[0], [1], [0]]] : List Col) ([[[0], [0], [1]], [[0], [0], [0]]] : List Col) staleG (zeroCols 1 2 4) (zeroCols 1 2 4) = .ok (xa, xb) ∧
     C02L.GWF 1 (Ks.mkCt 4 1 xa) ∧ C02L.GWF 1 (Ks.mkCt 4 1 xb) := by
-  obtain ⟨xa, xb, h1, h2, h3, _⟩ := cswap_decrypts (N := 1) 4 ([[[1], [2], [3]], [[0], [1], [0]]] : List Col) ([[[0], [0], [1]], [[0], [0], [0]]] : List Col) staleG (zeroCols 1 2 4) (zeroCols 1 2 4) [[1]] (2 ^ 60) (2 ^ 60)
+  obtain ⟨xa, xb, h1, h2, h3, _⟩ := cswap_decrypts (N := 1) true 4 ([[[1], [2], [3]], [[0], [1], [0]]] : List Col) ([[[0], [0], [1]], [[0], [0], [0]]] : List Col) staleG (zeroCols 1 2 4) (zeroCols 1 2 4) [[1]] (2 ^ 60) (2 ^ 60)
     (by decide) rfl (by decide) (by decide) (by decide) (by decide) (by decide) (by decide) (by decide) (by decide)
     m2 σ (fun i r => Gadget.val ((2 : Ks.R 1) ^ staleG.base2k) staleG.size (Ks.keyPhase 1 [[1]] staleG.toPMat i r)
                     - m2 * σ i * ((2 : Ks.R 1) ^ staleG.base2k) ^ (staleG.size - (r + 1) * staleG.dsize))
